@@ -346,3 +346,39 @@ Definition Shared_mode_race (c0 : list bool) (ts : list thread) (i : nat) : bool
   | None => false
   | Some t => negb (straight (stk t)) && negb (forallb (fun tj => nw c0 (stk tj)) (others i ts))
   end.
+
+(* ---- the parallel adaptors (api/*.rs: fn parallel(self)) ----
+   `let items: Vec<_> = self.collect(); items.into_par_iter()`: the items of the sequential
+   iterator, in its order, handed to rayon as an INDEXED parallel iterator.  Indexed consumers
+   (collect into a Vec, enumerate, zip, find_first, filter+collect) are defined by rayon in terms
+   of the positions in that vector; they are transcribed here with explicit positions. *)
+From Coq Require Import ZArith.
+
+Definition parallel {X : Type} (l : list X) : list X := l.
+
+Definition ck_mod : Z := 1000003%Z.
+
+(* items paired with their positions, as enumerate()/zip(0..len) see them *)
+Definition indexed (l : list Z) : list (Z * Z) :=
+  combine (map Z.of_nat (seq 0 (length l))) l.
+
+Definition par_collect_ck (l : list Z) : Z :=
+  (fold_left (fun acc p => acc + (fst p + 1) * (snd p + 1)) (indexed (parallel l)) 0 mod ck_mod)%Z.
+
+Definition par_fold_ck (l : list Z) : Z :=
+  (fold_left (fun acc p => acc + (fst p + 2) * (snd p + 3)) (indexed (parallel l)) 0 mod ck_mod)%Z.
+
+Definition wanted (h : Z) : bool := (Z.eqb (h mod 211) 5 && Z.ltb 1100 h)%Z.
+
+(* find_first: the match at the lowest position *)
+Definition par_find_first (l : list Z) : Z :=
+  match filter (fun p => wanted (snd p)) (indexed (parallel l)) with
+  | p :: _ => snd p
+  | [] => (-1)%Z
+  end.
+
+Definition par_filter_ck (l : list Z) : Z :=
+  par_collect_ck (filter (fun h => Z.eqb (h mod 3) 0) (parallel l)).
+
+Definition par_consumers (l : list Z) : list Z :=
+  [Z.of_nat (length (parallel l)); par_collect_ck l; par_fold_ck l; par_find_first l; par_filter_ck l].
